@@ -55,7 +55,7 @@ def run_case(case):
     rec = Recorder()
     m = WrapMon(rec, with_tree=False)
     base = stub_learner(base_kind(case["algo"])) if case.get("stub") else C.BASE_LEARNERS[base_kind(case["algo"])]
-    ctx = drive(case, [m], learner_cls=recording_learner(base, rec), use_budget=not case.get("stub"))
+    ctx = drive(case, [m], learner_cls=recording_learner(base, rec), use_budget=not case.get("stub"), own=PROP)
     res = result_of(ctx, [m], prefix=PROP, nontrivial=nontrivial)
     if case.get("stub"):
         res["obs"]["stub_schedules_enumerated"] = 1
